@@ -797,6 +797,104 @@ CHAIN = ("class Node17 {\n  v: int\n  next: Self?\n  constructor(self, v: int, n
 CHAIN_CLASS = 'long-reference-chain-aborts'
 
 
+# ---------------------------------------------------------------- blocks that were left are not in the trace
+# A loop left by `break`, an iteration cut short by `continue`, an `if` / `else` that has ended: their frames are gone.  A
+# failure that happens AFTER them is reported with exactly the frames of the twin program that never ran them.  Fixed cases
+# (the same for every seed): loop shape x context x place of the failing statement.
+LOOP_SHAPES = [
+    ("while-continue-in-if", "i = 0\nwhile i < 4 {\n  i = i + 1\n  if i % 2 == 0 {\n    continue\n  }\n  t = t + 1\n}"),
+    ("while-continue-direct", "i = 0\nwhile i < 3 {\n  i = i + 1\n  continue\n}"),
+    ("while-continue-in-else", "i = 0\nwhile i < 3 {\n  i = i + 1\n  if i == 9 {\n    t = t + 1\n  } else {\n    continue\n  }\n}"),
+    ("while-break-direct", "i = 0\nwhile i < 3 {\n  i = i + 1\n  break\n}"),
+    ("while-break-in-if", "i = 0\nwhile true {\n  i = i + 1\n  if i == 3 {\n    break\n  }\n}"),
+    ("while-break-in-else", "i = 0\nwhile true {\n  i = i + 1\n  if i < 3 {\n    t = t + 1\n  } else {\n    break\n  }\n}"),
+    ("while-break-in-nested-ifs", "i = 0\nwhile true {\n  i = i + 1\n  if i > 1 {\n    if i > 2 {\n      break\n    }\n  }\n}"),
+    ("from-continue-in-if", "from 0 to 4, j {\n  if j % 2 == 0 {\n    continue\n  }\n  t = t + j\n}"),
+    ("from-continue-direct", "from 0 to 3 {\n  t = t + 1\n  continue\n}"),
+    ("from-break-in-if", "from 0 to 9, j {\n  if j == 2 {\n    break\n  }\n}"),
+    ("from-break-direct", "from 0 to 9 {\n  break\n}"),
+    ("while-in-from-continue", "from 0 to 2, j {\n  i = 0\n  while i < 3 {\n    i = i + 1\n    if i == 2 {\n      continue\n    }\n    t = t + 1\n  }\n}"),
+    ("from-in-while-break", "i = 0\nwhile i < 2 {\n  i = i + 1\n  from 0 to 5, j {\n    if j == 1 {\n      break\n    }\n  }\n}"),
+    ("while-in-while-both", "i = 0\nwhile i < 3 {\n  i = i + 1\n  k = 0\n  while true {\n    k = k + 1\n    if k < 2 {\n      continue\n    }\n    break\n  }\n  if i == 2 {\n    continue\n  }\n  t = t + 1\n}"),
+    ("if-else-ended", "if t == 0 {\n  t = t + 1\n} else {\n  t = t + 2\n}\nif t == 5 {\n  t = 0\n}"),
+]
+LOOP_CONTEXTS = ["module", "function", "closure", "method", "callee-returns", "callee-returns-from-loop"]
+
+
+def completed_block_cases():
+    """-> [(name, source with the blocks, source of the twin without them)]"""
+    out = []
+
+    def ind(text, n):
+        return "".join("  " * n + l + "\n" for l in text.split("\n"))
+    for shape, loop in LOOP_SHAPES:
+        for ctxk in LOOP_CONTEXTS:
+            for place in ("top", "in-if", "in-while"):
+                fail = {"top": "assert t == -1", "in-if": "if t > -5 {\n  assert t == -1\n}",
+                        "in-while": "q = 0\nwhile q < 1 {\n  q = q + 1\n  assert t == -1\n}"}[place]
+                srcs = []
+                for body in (loop, "t = t + 1"):
+                    if ctxk == "module":
+                        src = "t = 0\nprint \"start\"\n" + body + "\nprint \"before\"\n" + fail + "\nprint \"never\"\n"
+                    elif ctxk == "function":
+                        src = "f = fn(n: int) -> int {\n  t = n\n" + ind(body, 1) + "  print \"before\"\n" + ind(fail, 1) + "  return t\n}\nprint \"start\"\nprint f(0)\nprint \"never\"\n"
+                    elif ctxk == "closure":
+                        src = ("mk = fn() -> fn(int) -> int {\n  base = 0\n  g = fn(n: int) -> int {\n    t = n + base\n" + ind(body, 2) + "    print \"before\"\n" + ind(fail, 2)
+                               + "    return t\n  }\n  return g\n}\nh = mk()\nprint \"start\"\nprint h(0)\nprint \"never\"\n")
+                    elif ctxk == "method":
+                        src = ("class K {\n  v: int\n  constructor(self) {\n    self.v = 0\n  }\n  fn scan(self, n: int) -> int {\n    t = n\n" + ind(body, 2) + "    print \"before\"\n" + ind(fail, 2)
+                               + "    return t\n  }\n}\nrun = fn() -> int {\n  o = K()\n  return o.scan(0)\n}\nprint \"start\"\nprint run()\nprint \"never\"\n")
+                    elif ctxk == "callee-returns":
+                        src = ("g = fn(n: int) -> int {\n  t = n\n" + ind(body, 1) + "  return t\n}\nf = fn() -> int {\n  t = g(0)\n  print \"before\"\n" + ind(fail, 1)
+                               + "  return t\n}\nprint \"start\"\nprint f()\nprint \"never\"\n")
+                    else:
+                        # the callee returns from INSIDE its blocks (the twin returns at once)
+                        inner = body if body == "t = t + 1" else body.replace("break", "return t").replace("continue", "return t")
+                        src = ("g = fn(n: int) -> int {\n  t = n\n" + ind(inner, 1) + "  return t\n}\nf = fn() -> int {\n  t = g(0)\n  print \"before\"\n" + ind(fail, 1)
+                               + "  return t\n}\nprint \"start\"\nprint f()\nprint \"never\"\n")
+                    srcs.append(src)
+                out.append(("%s / %s / failure %s" % (shape, ctxk, place), srcs[0], srcs[1]))
+    return out
+
+
+def run_completed_blocks(ctx, binary, base):
+    cases = completed_block_cases()
+
+    def one(c):
+        r = []
+        for src in (c[1], c[2]):
+            d = programs.materialize({"files": {"main.ms": src}}, base)
+            r.append(programs.run_bin(binary, ["run", "main.ms", "-q"], d, timeout=30))
+            import shutil
+            shutil.rmtree(d, ignore_errors=True)
+        return r
+    n = 0
+    for (name, src, twin), (ra, rb) in zip(cases, programs.pmap(one, cases)):
+        if "Did not compile" in (rb[1] + rb[2]) or "Did not compile" in (ra[1] + ra[2]):
+            ctx.report("generator:rejected", "completed-block case %s is rejected by the compiler: %s" % (name, (ra[1] + ra[2] + rb[1] + rb[2])[-300:]), {"program": src, "twin": twin}, found_input=False)
+            continue
+        n += 1
+        ka, da, sa = vmtie.parse_real_error(ra[2])
+        kb, db, sb = vmtie.parse_real_error(rb[2])
+        exp_out = ["start", "before"]
+        bad = None
+        if kb != "assert" or rb[0] != 1 or lines_of(rb[1]) != exp_out:
+            bad = "the twin without the blocks does not end in the assertion failure: exit %s, %r, %s" % (rb[0], lines_of(rb[1]), (kb, db))
+        elif ra[0] != 1 or ka != "assert":
+            bad = "exit %s, failure reported as %s %s (expected the assertion failure, exit 1)" % (ra[0], ka, str(da)[:200])
+        elif lines_of(ra[1]) != exp_out:
+            bad = "printed %r, expected %r" % (lines_of(ra[1]), exp_out)
+        elif sa != sb:
+            bad = "trace %r, but the same failure without the completed blocks is reported with trace %r" % (sa, sb)
+        if bad:
+            ctx.report("trace:frames-of-completed-blocks", "a failure after blocks that have ended (%s): %s" % (name, bad),
+                       {"files": {"main.ms": src}, "entry": "main.ms", "twin_without_the_blocks": twin, "observed_exit": ra[0], "observed_stdout": ra[1][-400:],
+                        "observed_stderr": re.sub(r"\(\d+\) panicked", "panicked", ra[2][-1200:]), "expected_trace": sb,
+                        "how": "mscript run main.ms -q; the trace must be the one of the twin"})
+    ctx.cov["completed_block_cases"] = {"cases": n, "loop_shapes": len(LOOP_SHAPES), "contexts": len(LOOP_CONTEXTS)}
+    return n
+
+
 def run(ctx):
     ok = core.coq_props(ctx, "Props/C17.v")
     binary = core.build_repo()
@@ -904,6 +1002,8 @@ def run(ctx):
     for b in slow[:20]:
         judge(*one(b, timeout=300)[:4])
 
+    n_cb = run_completed_blocks(ctx, binary, base)
+
     # ---------------- native stack exhaustion (outside every model): observed
     def deep(n):
         d = programs.materialize({"files": {"main.ms": DEEP % n}}, base)
@@ -945,7 +1045,7 @@ def run(ctx):
                    {"files": b.files}, found_input=False)
 
     depths = sorted(set(d for _, d in kinds_seen))
-    ctx.cov["evaluations"] = n_spec
+    ctx.cov["evaluations"] = n_spec + n_cb
     ctx.cov["distinct_nontrivial"] = len(set((b.plan['kind'], b.plan['depth'], tuple(l['ctx'] for l in b.plan['links'])) for b in built))
     ctx.cov["rule"] = ("failing programs: failure kind x call depth (activations above the module) 0..6 x context flavour; every call site and the failing "
                        "operation nested in 0-3 random if/else/while/from blocks; prints before and after every call.  evaluations = programs whose real run "
